@@ -99,8 +99,14 @@ def handle (j : Json) : R Json := do
     let a ← strF j "from"
     let b ← strF j "to"
     let long := renameInput (swapName a b) inp
+    let c ← countsOf inp j
+    let ρ := toFun (c.getD [])
     pure (Json.mkObj [("ok", Json.bool true), ("long", inputJson long),
-      ("target_unused", Json.bool (inp.occs.all (fun p => p.1 != b) && inp.constraints.all (fun c => c.name != b))),
+      ("counts_known", Json.bool c.isSome),
+      ("target_unused", Json.bool (!inp.names.contains b)),
+      ("ren_ok", Json.bool (renOK (swapName a b) inp ρ)),
+      ("names_ok_short", Json.bool (namesOK inp ρ)),
+      ("names_ok_long", Json.bool (namesOK long ρ)),
       ("solve_short", outcomeJson inp), ("solve_long", outcomeJson long)])
   | k => throw s!"unknown shorthand op {k}"
 
